@@ -10,5 +10,6 @@ CONSTANTS
   MaxGen = 4
   CfgSW = FALSE
   CfgNidl = TRUE
+  CfgSO = FALSE
 INVARIANTS InvC05
 CHECK_DEADLOCK FALSE
